@@ -16,9 +16,12 @@
    * the green tree the printer walks (`cst`: token leaves carrying the trivia emit_token_with_trivia looks up, internal nodes)
      and the document builder `doc_of` for the expression / statement FRAGMENT:
        Program Statement FunctionDecl LetDecl LetRecDecl AssignExpr BinaryExpr UnaryExpr CallExpr LambdaExpr IfExpr BlockExpr
-       TupleExpr ArrayExpr ParenExpr FieldAccess IndexExpr ParamList ArgList TuplePattern TupleType RecordType and the leaf-like
-       kinds printed by print_leaf_children (literals, Identifier, SinglePattern, Pattern, TypeAnnotation, the simple types).
-     Everything else (match, type declarations, records, macro expansion, modules, use, stage, include, ...) is `SOutside`.
+       TupleExpr ArrayExpr ParenExpr RecordExpr MacroExpansion QualifiedPath FieldAccess IndexExpr ParamList ArgList
+       TuplePattern RecordPattern TupleType RecordType and the leaf-like kinds printed by print_leaf_children (literals,
+       Identifier, SinglePattern, Pattern, TypeAnnotation, ParamDefault, EscapeExpr, BracketExpr, IncludeStmt, StageDecl, the
+       simple types).  Everything else (match, type declarations, modules, use, visibility, ...) is `SOutside`.
+   * the `pretty` crate's document smart constructors (append drops Nil, group/nest are no-ops on Nil/text) and its rule for
+     the indentation after a newline (render.rs Best::best, arm Hardline: the indentation of the NEXT pending command).
    * the parser's use of line breaks: a line break between two syntax tokens p, w changes the parse only if w is a postfix
      opener `(` `[` `.` and p can end an expression (`sensitive`).  `observed` lists, for a rendering, the line-break flags
      at exactly those positions. *)
@@ -324,6 +327,8 @@ Inductive tkind : Type :=
 | KOp (pipe : bool)       (* the 17 kinds print_binary_expr treats as operators; pipe = OpPipe | OpPipeMacro *)
 | KLambdaBar | KComma | KIf | KElse
 | KBlockBegin | KBlockEnd | KParenBegin | KParenEnd | KArrayBegin | KArrayEnd
+| KIdent                  (* Ident | IdentFunction | IdentVariable *)
+| KMacroExpand | KLeftArrow | KDoubleColon
 | KOther.
 
 Inductive skind : Type :=
@@ -331,6 +336,7 @@ Inductive skind : Type :=
 | SBinaryExpr | SUnaryExpr | SCallExpr | SLambdaExpr | SIfExpr | SBlockExpr
 | SGroupedList (is_type : bool) (* TupleExpr ArrayExpr ParamList ArgList TuplePattern RecordPattern (false) TupleType RecordType (true) *)
 | SParenExpr
+| SRecordExpr | SMacroExpansion | SQualifiedPath
 | SLeaf (is_type : bool)  (* printed by print_leaf_children; is_type = one of the 8 kinds print_lambda_expr calls a type node *)
 | SOutside.               (* outside the fragment *)
 
@@ -519,6 +525,70 @@ Definition print_grouped_list (ind : nat) (cs : list cst) (ds : list doc) : doc 
   | (open, close, its) => group (cat open (cat (nest ind (intersperse its breakable_comma)) close))
   end.
 
+(* print_record_expr: (fields, current_field, has_current_field, open, close, in_body) *)
+Fixpoint print_record_scan (cs : list cst) (ds : list doc) (fields : list doc) (cur : doc) (has_cur : bool)
+         (open close : doc) (in_body : bool) : doc * doc * list doc :=
+  match cs, ds with
+  | Tok KBlockBegin _ _ _ :: cr, d :: dr => print_record_scan cr dr fields cur has_cur d close true
+  | Tok KBlockEnd _ _ _ :: cr, d :: dr =>
+      print_record_scan cr dr (if has_cur then fields ++ [cur] else fields) cur has_cur open d false
+  | c :: cr, d :: dr =>
+      if in_body then
+        match c with
+        | Tok KComma _ _ _ =>
+            if has_cur then print_record_scan cr dr (fields ++ [cur]) Nil false open close in_body
+            else print_record_scan cr dr fields cur has_cur open close in_body
+        | Tok (KAssign | KLeftArrow) _ _ _ =>
+            print_record_scan cr dr fields (cat (cat (cat cur space) d) space) true open close in_body
+        | _ => print_record_scan cr dr fields (cat cur d) true open close in_body
+        end
+      else print_record_scan cr dr fields cur has_cur open close in_body
+  | _, _ => (open, close, fields)
+  end.
+
+Definition print_record_expr (ind : nat) (cs : list cst) (ds : list doc) : doc :=
+  match print_record_scan cs ds [] Nil false Nil Nil false with
+  | (open, close, []) => cat open close
+  | (open, close, fields) => cat (cat open (group (nest ind (intersperse fields breakable_comma)))) close
+  end.
+
+(* print_macro_expansion: (result, args, in_args, open, close) *)
+Fixpoint print_macro_scan (cs : list cst) (ds : list doc) (result : doc) (args : list doc) (in_args : bool)
+         (open close : doc) : doc * list doc * doc * doc :=
+  match cs, ds with
+  | c :: cr, d :: dr =>
+      match c with
+      | Tok KIdent _ _ _ =>
+          if in_args then print_macro_scan cr dr result (args ++ [d]) in_args open close
+          else print_macro_scan cr dr (cat result d) args in_args open close
+      | Tok KMacroExpand _ _ _ => print_macro_scan cr dr (cat result d) args in_args open close
+      | Tok KParenBegin _ _ _ => print_macro_scan cr dr result args true d close
+      | Tok KParenEnd _ _ _ => print_macro_scan cr dr result args false open d
+      | Tok KComma _ _ _ =>
+          if in_args then print_macro_scan cr dr result args in_args open close
+          else print_macro_scan cr dr (cat result d) args in_args open close
+      | _ =>
+          if in_args then print_macro_scan cr dr result (args ++ [d]) in_args open close
+          else print_macro_scan cr dr (cat result d) args in_args open close
+      end
+  | _, _ => (result, args, open, close)
+  end.
+
+Definition print_macro_expansion (cs : list cst) (ds : list doc) : doc :=
+  match print_macro_scan cs ds Nil [] false Nil Nil with
+  | (result, [], open, close) => cat (cat result open) close
+  | (result, args, open, close) => cat (cat (cat result open) (intersperse args (Text ", "))) close
+  end.
+
+(* print_qualified_path: identifiers and `::` are emitted, any other token is skipped *)
+Fixpoint print_qualified_path (cs : list cst) (ds : list doc) : doc :=
+  match cs, ds with
+  | Tok (KIdent | KDoubleColon) _ _ _ :: cr, d :: dr => cat d (print_qualified_path cr dr)
+  | Tok _ _ _ _ :: cr, _ :: dr => print_qualified_path cr dr
+  | Node _ _ :: cr, d :: dr => cat d (print_qualified_path cr dr)
+  | _, _ => Nil
+  end.
+
 (* cst_to_doc *)
 Fixpoint doc_of (ind : nat) (c : cst) : doc :=
   match c with
@@ -540,6 +610,9 @@ Fixpoint doc_of (ind : nat) (c : cst) : doc :=
       | SBlockExpr => print_block_expr ind cs ds
       | SGroupedList _ => print_grouped_list ind cs ds
       | SParenExpr => group (dconcat ds)
+      | SRecordExpr => print_record_expr ind cs ds
+      | SMacroExpansion => print_macro_expansion cs ds
+      | SQualifiedPath => print_qualified_path cs ds
       | SLeaf _ => dconcat ds
       | SOutside => dconcat ds
       end
